@@ -164,6 +164,14 @@ func (i *interpreter) global(fr *frame, g *ssa.Global) *value {
 	if c, ok := i.globals[g]; ok {
 		return c
 	}
+	if g.Pkg.Pkg.Path() == "path/filepath" && (g.Name() == "SkipDir" || g.Name() == "SkipAll") {
+		// filepath.SkipDir is io/fs.SkipDir (path/filepath itself is not initialised)
+		if fsPkg := i.env.pkgs["io/fs"]; fsPkg != nil {
+			if fg, ok := fsPkg.Members[g.Name()].(*ssa.Global); ok {
+				return i.global(fr, fg)
+			}
+		}
+	}
 	pol := initPolicy(g.Pkg.Pkg.Path())
 	if pol == 2 {
 		w := fr.p.w
